@@ -432,6 +432,26 @@ def boundary_streams():
     return out
 
 
+def phase_streams():
+    """A long valid run (cut several times at max_length) followed by a long silence, started at every
+    offset 0..135: every alignment of the cuts and of the silence with block sizes up to 128 frames."""
+    out = []
+    for p in range(0, 136):
+        out.append([False] * p + [True] * 24 + [False] * 80)
+        if p % 3 == 0:
+            out.append([False] * p + [True] * 7 + [False] * 2 + [True] * 9 + [False] * 70 + [True] * 3)
+    return out
+
+
+def phase_tuples():
+    out = []
+    for (mn, mx, ms) in ((1, 8, 3), (2, 5, 2), (1, 6, 1), (3, 8, 0), (1, 24, 5)):
+        for mode in tm.MODES:
+            out.append((mn, mx, ms, 0, 0, mode))
+        out.append((mn, mx, ms, 2, 1, 0))
+    return out
+
+
 def boundary_tuples():
     out = []
     for (mn, mx, ms) in ((1, 400, 150), (1, 300, 129), (5, 1030, 257), (1, 130, 128), (3, 64, 10), (1, 257, 0), (2, 128, 127)):
@@ -447,7 +467,7 @@ def work_long(task):
     cov = {"evaluations": 0, "distinct_nontrivial": 0, "traces_validated_against_impl": 0, "large_rows_not_exhaustive": 0,
            "samples": []}
     viol = []
-    streams = long_streams(n) if n > 0 else boundary_streams()
+    streams = long_streams(n) if n > 0 else (boundary_streams() if n == 0 else phase_streams())
     n = max(len(w) for w in streams)
     global _FR
     if len(_FR) < n + 1:
@@ -632,6 +652,9 @@ def run(prop, tier):
     bt = [t for t in boundary_tuples() if prop != "C04" or t[3] <= 1]
     for c in _interleave(bt, common.NPROC * 2):
         tasks.append(("long", (prop, c, 0)))
+    pt = [t for t in phase_tuples() if prop != "C04" or t[3] <= 1]
+    for c in _interleave(pt, common.NPROC):
+        tasks.append(("long", (prop, c, -1)))
     for part in common.pmap(_dispatch, tasks):
         rep.merge(part)
     rep.assumptions += [
